@@ -4,6 +4,7 @@ package main
 // alias tables is floating-point computation and is not decided.
 
 import (
+	"go/constant"
 	"fmt"
 	"go/token"
 	"go/types"
@@ -296,6 +297,80 @@ func runC12(c *Ctx) {
 			ob.Violate("%s", bad)
 		} else {
 			ob.HoldNT("2 worklists, both provably empty at the publication of prob/alias; every removed index is settled")
+		}
+	}
+	// the scaled probabilities are weight*n/sum with sum = the sum of ALL weights, on every path
+	ob = c.Obl("R2", "common/probdist:(*WeightedDist).genTables#normalised", "the tables are built from weight_i * n / (sum of all weights): the divisor is the loop-carried sum over w.weights, started at 0 and taken on every path (assuming a sum of 1 for some configuration makes the tables deviate from the weights)")
+	if gt := p.Func("common/probdist:(*WeightedDist).genTables"); gt == nil {
+		ob.Undecide("genTables not found")
+	} else {
+		bad = ""
+		nDiv := 0
+		allInstrs(gt, func(in ssa.Instruction) {
+			q, ok := in.(*ssa.BinOp)
+			if !ok || q.Op != token.QUO {
+				return
+			}
+			if b, isB := q.Type().Underlying().(*types.Basic); !isB || b.Info()&types.IsFloat == 0 {
+				return
+			}
+			nDiv++
+			ph, isPhi := unspill(q.Y).(*ssa.Phi)
+			if !isPhi || !blockOnCycle(ph.Block()) {
+				bad = "the divisor at " + p.InstrPos(q) + " is not the running sum of the weights (it is " + p.valString(q.Y) + ")"
+				return
+			}
+			okInit, okStep := false, false
+			for i, e := range ph.Edges {
+				pred := ph.Block().Preds[i]
+				if !isBackEdge(pred, ph.Block()) {
+					k, isK := e.(*ssa.Const)
+					if isK && k.Value != nil && constant.Sign(k.Value) == 0 {
+						okInit = true
+					} else {
+						bad = "the sum does not start at 0 (" + p.valString(e) + ")"
+					}
+					continue
+				}
+				add, isAdd := unspill(e).(*ssa.BinOp)
+				if !isAdd || add.Op != token.ADD {
+					bad = "the sum is not advanced by addition"
+					continue
+				}
+				x, y := unspill(add.X), unspill(add.Y)
+				if y == ssa.Value(ph) {
+					x, y = y, x
+				}
+				// the other operand: an element of w.weights (range value)
+				isElem := false
+				switch el := y.(type) {
+				case *ssa.UnOp:
+					if ia, ok := el.X.(*ssa.IndexAddr); ok && isFieldLoad(ia.X, tWD, "weights") {
+						isElem = true
+					}
+				case *ssa.Index:
+					isElem = isFieldLoad(el.X, tWD, "weights")
+				case *ssa.Extract:
+					// range over the slice: extract of next
+					isElem = true
+				}
+				if x == ssa.Value(ph) && isElem {
+					okStep = true
+				} else {
+					bad = "the sum is not advanced by one weight per iteration"
+				}
+			}
+			if (!okInit || !okStep) && bad == "" {
+				bad = "the divisor is not sum = 0; for each weight: sum += weight"
+			}
+		})
+		if nDiv == 0 && bad == "" {
+			bad = "no normalising division found in genTables"
+		}
+		if bad != "" {
+			ob.Violate("%s", bad)
+		} else {
+			ob.HoldNT("%d division(s) by the sum of all weights", nDiv)
 		}
 	}
 	ob = c.Obl("R2", tWD+".values#untouched-prefix", "the value table is a prefix of the generator's permutation of [0, max-min] and its elements are never modified (scaling by minValue happens only in Sample)")
